@@ -438,7 +438,9 @@ class CaseRun:
                             "key": key.hex() if key else None, "mtu": C.Packet.MTU, "aad_ok": aad_ok,
                             "msgs": [(int(m.seq), m.type.value, digest(m.payload)) for m in pkt.msgs],
                             "frags": {int(m.seq): struct.unpack(">HHH", m.payload[:6]) for m in pkt.msgs
-                                      if m.type.value == 7 and len(m.payload) >= 6}}})
+                                      if m.type.value == 7 and len(m.payload) >= 6},
+                            # the first six bytes of every large message read as a fragment header, whatever its type says
+                            "heads": [struct.unpack(">HHH", m.payload[:6]) if len(m.payload) > 300 else None for m in pkt.msgs]}})
             except Exception as e:
                 out.append("err:" + type(e).__name__)
                 if log is not None:
@@ -964,7 +966,7 @@ def gen_handshake(real, rng, cid, script=None):
     t = BASE_T + rng.randint(0, 3000)
     script = script or rng.choice(["honest", "honest", "flip-client-hello", "flip-server-hello", "foreign-root", "resigned", "other-session",
                                     "wrong-token", "other-key-challenge", "dup-reorder", "tofu", "pinned-other", "trunc-ext", "early-app",
-                                    "no-answer", "stacked", "early-send", "late-hello"])
+                                    "no-answer", "stacked", "early-send", "late-hello", "rekey-attempt"])
 
     def emit(line):
         o = run.exec(line)
@@ -1129,6 +1131,32 @@ def gen_handshake(real, rng, cid, script=None):
                 t += 3
                 # a second, freshly built challenge with the right token after promotion
                 emit("recv s t=%d d=!3,12,0,0,%d,1:%s:%s" % (t, t // 1024, (b"\x00\x0c" + chal.dumpb()).hex(), ckey.hex()))
+        if script == "rekey-attempt" and ckey and run.eps["s"]["conn"].status.value == 2:
+            # the CONNECTED client sends CLIENT_HELLO messages sealed under the session key while the server has retried messages in
+            # flight and large ones queued: the server must not answer (no second hello, no new key, nothing of the application behind
+            # a clear SERVER_HELLO)
+            mp = C.Packet.MAX_PAYLOAD_SIZE
+            emit("send s len=40 seed=%d retry=-1 cb=-" % rng.randint(1, 9999))
+            built("s")                                    # lost
+            for _ in range(2):
+                emit("send s len=%d seed=%d retry=-1 cb=-" % (mp, rng.randint(1, 9999)))
+            cc = run.eps["c"]["conn"]
+            hm = C.HandshakeClientHelloMessage()
+            hm.client_pubkey = cc.session_key.getPublicKey()
+            hm.client_version = cc.version
+            hp = hm.dumpb()
+            ss, sm = (int(cc.seq_sending) % 65535) + 1, (int(cc.seq_message) % 65535) + 1
+            sm2 = (sm % 65535) + 1
+            emit("set c ss=%d sm=%d" % (ss, sm2))
+            body = b"".join(struct.pack(">HHB", len(hp), q, 1) + hp for q in (sm, sm2))
+            t += 3
+            emit("recv s t=%d d=!1,%d,%d,%d,%d,2:%s:%s" % (t, ss, int(cc.bitfield_pkt.current_seqnum), cc.bitfield_pkt.bits, t // 1024,
+                                                        body.hex(), ckey.hex()))
+            t += rng.choice([990, 1010, 1030])
+            for _ in range(8):
+                built("s")
+                emit("tmo s t=%d" % t)
+            emit("dump s")
         # ---- afterwards: traffic both ways
         for e in ("c", "s"):
             emit("send %s len=%d seed=%d retry=0 cb=-" % (e, rng.choice([5, 40]), rng.randint(1, 9999)))
@@ -1145,6 +1173,63 @@ def gen_handshake(real, rng, cid, script=None):
         run.close()
     lines.append("end")
     return lines, outs, log
+
+def fresh_message_monitor(case, log, ctx):
+    """the message window, stated on the endpoints: a message is flagged duplicate only if it was received before - an application
+    message carried by an accepted datagram whose message number no earlier accepted datagram of that sender carried is handed on
+    (a `dlv` event in that very step), however far behind the newest message number it is"""
+    carried = {}                       # sender -> emission index -> [(mseq, type, digest)]
+    seen = {}                          # receiver -> set of message numbers carried by datagrams it accepted
+    recvs = [i for i, l in enumerate(case) if l.startswith("recv ")]
+    n = -1
+    for rec in log:
+        if rec["op"] == "build" and rec.get("pkt"):
+            carried.setdefault(rec["e"], {})[rec["pkt"]["k"]] = rec["pkt"]["msgs"]
+        elif rec["op"] == "recv":
+            n += 1
+            if rec.get("ret") != "T" or not rec.get("spec", "").startswith("@") or rec.get("muts") or rec.get("rekey"):
+                continue
+            src, kk = rec["spec"][1:].split(":")
+            got = set()
+            for ev in rec.get("ev", []):
+                p = ev.split(":")
+                if p[0] == "dlv":
+                    got.add(int(p[1]))
+            mine = seen.setdefault(rec["e"], set())
+            for mseq, ty, _dg in carried.get(src, {}).get(int(kk), []):
+                if ty == 6 and mseq not in mine and mseq not in got:          # 6 = PacketType.APP
+                    ctx.failure("fresh-message-flagged-duplicate", "endpoint %s accepted datagram %s carrying application message %d, which "
+                                "it had never received before, and did not hand it on" % (rec["e"], rec["spec"], mseq),
+                                {"case": case, "at": (recvs[n] - 1) if n < len(recvs) else len(case) - 2})
+                    return True
+                mine.add(mseq)
+    return False
+
+
+def key_stability_monitor(case, log, ctx, endpoints=None):
+    """one session key per connection: once an endpoint has emitted a datagram under a key, every later datagram it emits is under
+    that same key (a server-side connection answers one hello; nothing re-keys an established connection)"""
+    builds = [i for i, l in enumerate(case) if l.startswith("build ")]
+    first = {}
+    b = -1
+    for rec in log:
+        if rec["op"] != "build":
+            continue
+        b += 1
+        p = rec.get("pkt")
+        if not p or not p.get("key"):
+            continue
+        e = rec["e"]
+        if endpoints is not None and not e.startswith(endpoints):
+            continue
+        if e in first and first[e][0] != p["key"]:
+            ctx.failure("session-key-changed", "endpoint %s emitted datagram %d under key %s after having emitted datagram %d under key %s: "
+                        "the connection was re-keyed after its handshake" % (e, p["k"], p["key"], first[e][1], first[e][0]),
+                        {"case": case, "at": (builds[b] - 1) if b < len(builds) else len(case) - 2})
+            return True
+        first.setdefault(e, (p["key"], p["k"]))
+    return False
+
 
 def sealing_monitor(case, log, ctx):
     """every datagram emitted while a key is held (other than the server hello) opens under that key with nonce = its bytes 0..11 and the
